@@ -334,6 +334,11 @@ func runReqScenario(c *Ctx, cfg reqScenarioCfg) {
 					for id, lp := range lastTxPipe {
 						if lp == p && done[id] == "" {
 							done[id] = "cancelled" // with retries disabled, losing the connection cancels the request
+							for lc, cid := range cur {
+								if cid == id {
+									lateFor[lc] = id // directed follow-up: its late reply after the context has moved on
+								}
+							}
 						}
 					}
 				}
@@ -494,6 +499,11 @@ func runC03(c *Ctx) {
 	for i := 0; i < n/4+2; i++ {
 		runReqScenario(c, reqScenarioCfg{nops: 40, retryMs: 70, faults: true})
 	}
+	// … and with retries disabled: a lost connection abandons the request; its reply may still arrive, elsewhere
+	for i := 0; i < n/4+2; i++ {
+		runReqScenario(c, reqScenarioCfg{nops: 40, retryMs: 0, faults: true, noRetry: true})
+	}
+	runReqPerContextRetry(c)
 }
 
 func runC04(c *Ctx) {
@@ -508,5 +518,54 @@ func runC04(c *Ctx) {
 	}
 	for i := 0; i < n/2+1; i++ {
 		runReqScenario(c, reqScenarioCfg{nops: 40, retryMs: 0, faults: true, noRetry: true})
+	}
+	runReqPerContextRetry(c)
+}
+
+// directed (C04, C03): the retry time is a setting of the context.  Two contexts of one socket, one with retries
+// disabled and one with a retry time, each with a request on the same connection; the connection is lost.  The first
+// request is cancelled (its Recv fails, nothing is re-sent), the second is re-sent at once on the other connection —
+// whatever the socket's own setting is.
+func runReqPerContextRetry(c *Ctx) {
+	for _, sockRetry := range []int{60000, 0} {
+		e := NewExec(c, "m.req", req.NewProtocol(), "req")
+		e.timed, e.canonIDs = true, true
+		e.SetOpt(0, mangos.OptionRetryTime, fmt.Sprint(sockRetry), time.Duration(sockRetry)*time.Millisecond)
+		e.AddPipe(901)
+		e.OpenCtx(1)
+		e.OpenCtx(2)
+		e.SetOpt(1, mangos.OptionRetryTime, "0", time.Duration(0))
+		e.SetOpt(2, mangos.OptionRetryTime, "60000", time.Minute)
+		e.Send(1, nil, []byte{'n', 'o', 1})
+		e.Send(2, nil, []byte{'r', 'e', 2})
+		r1 := e.Recv(1)
+		r2 := e.Recv(2)
+		e.AddPipe(902)
+		e.RmPipe(901)
+		obs := lastObs(e)
+		var resent, cancelled bool
+		for _, ev := range splitEvents(obs) {
+			if ev.kind == "tx" && ev.pipe == 902 && len(ev.msg) == 3 && ev.msg[0] == 'r' {
+				resent = true
+			}
+			if ev.kind == "tx" && len(ev.msg) == 3 && ev.msg[0] == 'n' {
+				c.Violate(fmt.Sprintf("REQ: the request of a context whose retry time is 0 was re-sent after its connection was lost (socket retry time %d ms)", sockRetry), e.Replay())
+			}
+			if ev.kind == "ret" && ev.call == r1 && ev.err == "canceled" {
+				cancelled = true
+			}
+			if ev.kind == "ret" && ev.call == r2 {
+				c.Violate(fmt.Sprintf("REQ: the Recv of a context with a retry time returned (%s) when its connection was lost; its request should have been re-sent (socket retry time %d ms)", ev.err, sockRetry), e.Replay())
+			}
+		}
+		if !e.broken {
+			if !resent {
+				c.Violate(fmt.Sprintf("REQ: the request of a context with a retry time was not re-sent to the other connection when its connection was lost (socket retry time %d ms)", sockRetry), e.Replay())
+			}
+			if !cancelled {
+				c.Violate(fmt.Sprintf("REQ: the pending Recv of a context whose retry time is 0 was not cancelled when its connection was lost (socket retry time %d ms)", sockRetry), e.Replay())
+			}
+		}
+		e.Finish()
 	}
 }
